@@ -9,8 +9,24 @@ use lc3_ensemble::sim::SimErr;
 const LIMIT: u64 = 3000;
 
 struct Run { result: Result<(), String>, halted: bool, display: Vec<u8>, regs: Vec<u16>, user_mem: Vec<u16>, err: Option<&'static str> }
-fn run_one(m: &Machine) -> Result<Run, String> {
-    let mut p = build(m);
+/// `prior`: the simulator was used before: a stack-using program (template 1/3 with R6 = x4000) was run on it to its HALT under real
+/// or virtual traps, then `reset()`; the judged program is then set up through the public fields exactly as on a fresh simulator
+/// (the saved stack pointer is left to `reset()`).
+fn run_one(m: &Machine, prior: u64) -> Result<Run, String> {
+    let mut p = if prior == 0 { build(m) } else {
+        let mut pm = template(if prior <= 2 { 4 } else { 10 }).expect("prior template"); pm.real_traps = prior % 2 == 1; pm.ignore_priv = m.ignore_priv;
+        let mut p = build(&pm);
+        let _ = catch(|| p.sim.run_with_limit(LIMIT))?;
+        catch(|| p.sim.reset())?;
+        p.sim.flags.use_real_traps = m.real_traps;
+        for (a, v) in &m.pokes { p.sim.mem[*a].set(*v); }
+        for i in 0..8 { p.sim.reg_file[reg(i)].set(m.regs[i as usize]); }
+        p.sim.pc = m.pc;
+        p.sim.write_mem(0xFFFC, lc3_ensemble::sim::mem::Word::new_init(m.psr), lc3_ensemble::sim::MemAccessCtx::omnipotent()).map_err(|e| format!("machinery: PSR write failed: {e:?}"))?;
+        { let mut q = p.kb.get_buffer().write().unwrap(); q.clear(); q.extend(m.kb.clone().unwrap_or_default()); }
+        p.disp.get_buffer().write().unwrap().clear();
+        p
+    };
     let r = catch(|| p.sim.run_with_limit(LIMIT))?;
     let err = match &r { Err(SimErr::AccessViolation) => Some("acv"), Err(SimErr::PrivilegeViolation) => Some("priv"), Err(SimErr::IllegalOpcode) | Err(SimErr::InvalidInstrFormat) => Some("illop"), Err(_) => Some("other"), Ok(()) => None };
     let display: Vec<u8> = { let g = p.disp.get_buffer().read().unwrap(); g.clone() };
@@ -59,12 +75,14 @@ fn executes_user_rti(m: &Machine) -> bool {
     }
     false
 }
-fn check(m: &Machine, what: &str) -> Result<&'static str, (String, String)> {
+fn check(m: &Machine, what: &str) -> Result<&'static str, (String, String)> { check_on(m, what, 0) }
+fn check_on(m: &Machine, what: &str, prior: u64) -> Result<&'static str, (String, String)> {
     if m.ignore_priv && executes_user_rti(m) { return Ok("unjudged"); }
+    let what = &if prior == 0 { what.to_string() } else { format!("{what}, on a simulator that ran a stack-using program to HALT under {} traps and was reset()", if prior % 2 == 1 { "real" } else { "virtual" }) };
     let mut mv = m.clone(); mv.real_traps = false;
     let mut mr = m.clone(); mr.real_traps = true;
-    let v = run_one(&mv).map_err(|p| (format!("panic:{}", panic_site(&p)), format!("{what} (virtual): {p}")))?;
-    let r = run_one(&mr).map_err(|p| (format!("panic:{}", panic_site(&p)), format!("{what} (real): {p}")))?;
+    let v = run_one(&mv, prior).map_err(|p| (format!("panic:{}", panic_site(&p)), format!("{what} (virtual): {p}")))?;
+    let r = run_one(&mr, prior).map_err(|p| (format!("panic:{}", panic_site(&p)), format!("{what} (real): {p}")))?;
     if v.result.is_ok() && v.halted {
         if r.result.is_err() || !r.halted { return Err(("real-does-not-halt".into(), format!("{what}: halts under virtual traps; under real traps result {:?}, hit_halt={}", r.result, r.halted))); }
         if r.display != v.display { return Err(("halt:display-differs".into(), format!("{what}: display virtual {:x?} vs real {:x?}", v.display, r.display))); }
@@ -83,7 +101,7 @@ fn check(m: &Machine, what: &str) -> Result<&'static str, (String, String)> {
 }
 
 pub fn run(ctx: &Ctx) -> Report {
-    let mut rep = Report::new("every user-mode program of 1-2 (thorough 3) instructions over the 40-word alphabet (I/O traps, subroutine calls, stack manipulation, loads/stores, faults) followed by HALT, plus 30 templates (stack use, nested subroutines saving R7, GETC/OUT/PUTS/PUTSP/IN, jumps and loads into supervisor memory, RTI, reserved opcode; 3 stack pointers), each run with run_with_limit(3000) under virtual and under real traps (and again with ignore_privilege set, which leaves the program in user mode): virtual HALT => same display, R0-R5, all user memory, and hit_halt() under real traps; virtual access/privilege/illegal-instruction error => real run prints the virtual output followed by the OS message for that exception (read from the OS image's symbol table) and halts; runs ending otherwise are counted, not judged. non-trivial = judged pairs");
+    let mut rep = Report::new("every user-mode program of 1-2 (thorough 3) instructions over the 40-word alphabet (I/O traps, subroutine calls, stack manipulation, loads/stores, faults) followed by HALT, plus 30 templates (stack use, nested subroutines saving R7, GETC/OUT/PUTS/PUTSP/IN, jumps and loads into supervisor memory, RTI, reserved opcode; 3 stack pointers), each run with run_with_limit(3000) under virtual and under real traps (and again with ignore_privilege set, which leaves the program in user mode): virtual HALT => same display, R0-R5, all user memory, and hit_halt() under real traps; virtual access/privilege/illegal-instruction error => real run prints the virtual output followed by the OS message for that exception (read from the OS image's symbol table) and halts; runs ending otherwise are counted, not judged. The templates and every 1-instruction (thorough 2-instruction) program are judged again on reused simulators: one that first ran a stack-using program (R6 in user memory) to its HALT under real or under virtual traps and was then reset() (4 prior uses). non-trivial = judged pairs");
     let maxlen = ctx.pick(2usize, 3usize);
     for len in 1..=maxlen {
         let n = 40u64.pow(len as u32);
@@ -100,12 +118,26 @@ pub fn run(ctx: &Ctx) -> Report {
         });
         rep.absorb(r);
     }
-    let r = sweep(ctx, 30, 1, |i, acc| {
+    let r = sweep(ctx, 30 * 5, 1, |j, acc| {
+        let (i, prior) = (j % 30, j / 30);
         let Some(m) = template(i) else { return };
-        acc.evals += 1; acc.transitions += 2; acc.traces += 1; acc.count("templates", 1);
-        match check(&m, &format!("template {i}")) {
+        acc.evals += 1; acc.transitions += 2; acc.traces += 1; acc.count(if prior == 0 { "templates" } else { "templates_on_reused_simulator" }, 1);
+        match check_on(&m, &format!("template {i}"), prior) {
             Ok(k) => { acc.count(&format!("ended_{k}"), 1); if k != "unjudged" { acc.nontrivial += 1; } }
-            Err((sig, d)) => acc.violation(sig, format!("t:{i}"), d),
+            Err((sig, d)) => acc.violation(sig, format!("t:{i}:{prior}"), d),
+        }
+    });
+    rep.absorb(r);
+    // every 1-instruction program (and in thorough every 2-instruction program) again on reused simulators
+    let rl = ctx.pick(1usize, 2usize);
+    let n = 40u64.pow(rl as u32);
+    let r = sweep(ctx, n * 4, 8, |k, acc| {
+        let (idx, prior) = (k / 4, k % 4 + 1);
+        let (m, words) = program_machine(rl, idx, 0);
+        acc.evals += 1; acc.transitions += 2; acc.traces += 1; acc.count("programs_on_reused_simulator", 1);
+        match check_on(&m, &format!("program {words:x?}"), prior) {
+            Ok(k) => { acc.count(&format!("ended_{k}"), 1); if k != "unjudged" { acc.nontrivial += 1; } }
+            Err((sig, d)) => acc.violation(sig, format!("r:{rl}:{idx}:{prior}"), d),
         }
     });
     rep.absorb(r);
@@ -116,6 +148,6 @@ pub fn run(ctx: &Ctx) -> Report {
 pub fn replay(case: &str) -> Option<String> {
     let p: Vec<&str> = case.split(':').collect();
     let n = |i: usize| -> Option<u64> { p.get(i)?.parse().ok() };
-    let r = match *p.first()? { "p" => { let (m, w) = program_machine(n(1)? as usize, n(2)?, n(3).unwrap_or(0) * 2); check(&m, &format!("program {w:x?}")) } "t" => check(&template(n(1)?)?, "template"), _ => return None };
+    let r = match *p.first()? { "p" => { let (m, w) = program_machine(n(1)? as usize, n(2)?, n(3).unwrap_or(0) * 2); check(&m, &format!("program {w:x?}")) } "t" => check_on(&template(n(1)?)?, "template", n(2).unwrap_or(0)), "r" => { let (m, w) = program_machine(n(1)? as usize, n(2)?, 0); check_on(&m, &format!("program {w:x?}"), n(3)?) } _ => return None };
     r.err().map(|(s, d)| format!("[{s}] {d}"))
 }
